@@ -34,7 +34,7 @@ DIST_UPD = mbt("dist-upd", DIST, "MBT_Distributor.tla", "distributor", "mc/MBT_D
 DIST_SINGLE = {"name": "dist-single", "kind": "mbt", "files": DIST, "module": "MBT_Distributor.tla", "harness": "distributor",
                "thorough": dict(cfg="mc/MBT_Distributor_single_thorough.cfg", walks=2000, depth=10, timeout=3000, hworkers=16, heap="10g", workers=16)}
 
-VEST = ["DecArith.tla", "Vesting.tla", "mc/MC_Vesting.tla", "mc/MBT_Vesting.tla"]
+VEST = ["DecArith.tla", "VestingMath.tla", "Vesting.tla", "mc/MC_Vesting.tla", "mc/MBT_Vesting.tla"]
 VEST_MC = mc("vesting-mc", VEST, "MC_Vesting.tla", "mc/MC_Vesting_quick.cfg", "mc/MC_Vesting_thorough.cfg")
 VEST_POOLS = mbt("vesting-pools", VEST, "MBT_Vesting.tla", "vesting", "mc/MBT_Vesting_pools_quick.cfg", "mc/MBT_Vesting_pools_thorough.cfg")
 VEST_ACCTS = mbt("vesting-accounts", VEST, "MBT_Vesting.tla", "vesting", "mc/MBT_Vesting_accounts_quick.cfg", "mc/MBT_Vesting_accounts_thorough.cfg")
@@ -54,6 +54,12 @@ UPG_MBT = mbt("upgrade", UPG, "MBT_Upgrade.tla", "upgrade", "mc/MBT_Upgrade_quic
 
 HOST = ["Hostile.tla", "mc/MBT_Hostile.tla"]
 HOST_MBT = mbt("hostile", HOST, "MBT_Hostile.tla", "hostile", "mc/MBT_Hostile_quick.cfg", "mc/MBT_Hostile_quick.cfg", qopts={"walks": 0}, topts={"walks": 0})
+
+SPLITF = ["DecArith.tla", "VestingMath.tla", "mc/MC_Split.tla"]
+SPLIT_DRIFT = mc("split-drift-mc", SPLITF, "MC_Split.tla", "mc/MC_Split_drift.cfg")
+SPLIT_NUM = {"name": "vesting-numeric", "kind": "num", "files": SPLITF, "module": "MC_Split.tla", "harness": "numvesting",
+             "quick": dict(cfg="mc/MC_Split_quick.cfg", steps=800, apalache_steps=60, workers=4),
+             "thorough": dict(cfg="mc/MC_Split_thorough.cfg", steps=6000, apalache_steps=1200, apalache_timeout=2400, workers=8, timeout=1800)}
 
 TRUST = ["TLC 1.8.0 and the TLA+ CommunityModules Json module", "the Go harness projection functions (harness/*)",
          "cosmos-sdk bank/auth keepers as the ground truth for balances and accounts"]
@@ -81,8 +87,9 @@ PROPS = {
     "C19": {"level": "model_checking", "stages": [MINTER_MC, MINTER_SCHED, MINTER_UPD], "assumptions": TRUST + ["inflation is compared with the model value within 2/P (the model truncates the same rational at 1/P twice)"]},
     "C05": {"level": "model_checking", "stages": [VEST_MC, VEST_POOLS], "assumptions": VEST_ASSUME},
     "C06": {"level": "model_checking", "stages": [VEST_MC, VEST_POOLS], "assumptions": VEST_ASSUME},
-    "C08": {"level": "model_checking", "stages": [VEST_MC, VEST_POOLS, VEST_ACCTS], "assumptions": VEST_ASSUME},
-    "C07": {"level": "model_checking", "stages": [VEST_MC, VEST_ACCTS, VEST_TWO], "assumptions": VEST_ASSUME},
+    "C08": {"level": "model_checking", "stages": [VEST_MC, VEST_POOLS, VEST_ACCTS, SPLIT_NUM], "assumptions": VEST_ASSUME},
+    "C07": {"level": "model_checking", "stages": [VEST_MC, SPLIT_DRIFT, SPLIT_NUM, VEST_ACCTS, VEST_TWO],
+            "assumptions": VEST_ASSUME + ["real-magnitude steps (amounts to 10^30) are single splits on fresh accounts; Apalache 0.58 evaluates spec/VestingMath.tla at P = 10^18"]},
     "C09": {"level": "model_checking", "stages": [VEST_MC, VEST_ACCTS, VEST_POOLS, SIG_MBT], "assumptions": VEST_ASSUME},
     "C15": {"level": "model_checking", "stages": [SIG_MBT],
             "assumptions": TRUST + ["cryptography is abstract in the model; the harness concretises keys with generated ECDSA P-256 / RSA-2048 self-signed certificates, so soundness is relative to Go's crypto/x509",
